@@ -3,7 +3,9 @@
 use std::sync::Arc;
 
 use ff::{Field, WithSmallOrderMulGroup};
-use group::{Curve, Group};
+use group::Group;
+#[allow(unused_imports)]
+use group::prime::PrimeCurveAffine;
 use midnight_curves::{CurveAffine, CurveExt};
 use num_traits::One;
 use serde_json::json;
